@@ -12,6 +12,9 @@ Three groups of obligations (DESIGN §3 C13):
     BOUNDED (every tree shape of a stated grammar up to a stated size, texts symbolic; never counted as proved) for all
     walkers -- contracts/C13_bounded.py;
 (c) PROVED typed values: xlsx `_get_cell_value`, xls `_get_cell_value(s)`, `_format_date_tuple`.
+(d) round 7, PROVED: the xlsx used-range helpers `_is_cell_non_empty`, `_is_meaningful_value`, `_find_last_data_row`,
+    `_find_last_data_column` (symbolic sheet) and `iterate_tables` of the content classes with one list of tables (any number of
+    tables; ghost sequence of the yielded values).  The loop-shaped ones are shape-gated (`_gate`): complementary to the bounded walkers.
 """
 import ast
 
